@@ -2,6 +2,7 @@
 
 from vsg import parser, token, violation
 from vsg.rule_group import case
+from vsg.rules import case_utils
 from vsg.vhdlFile import utils
 
 lTokens = []
@@ -143,6 +144,8 @@ def create_violation(sToken, iToken, dInterfaceMap, oToi):
 
 
 def interface_case_mismatch(sToken, lInterfaces, lInterfacesLower):
+    if case_utils.does_not_contain_any_alpha_characters(sToken):
+        return False
     if sToken.lower() in lInterfacesLower and sToken not in lInterfaces:
         return True
     return False
